@@ -80,12 +80,12 @@ CONC_RULE = ("one evaluation = one seeded simulated run of 2-4 clients, 3-8 RPCs
              "for the background shrinker, recycled inode numbers) under a seeded schedule (random walk with 4 switch rates, PCT, round robin, starvation of logger/installer/shrinker); ")
 
 PROPS.update({
-    "C03": {"level": "exploration", "budget": {"quick": 60, "thorough": 900},
+    "C03": {"level": "exploration", "budget": {"quick": 90, "thorough": 900},
             "level_text": "seeded search over concurrent histories and schedules; every recorded history (invoke/return stamped with the simulator's global event counter, closed by a sequential read-back of the whole tree) is checked for linearizability against the reference file system with porcupine; panics, deadlocks and a structural fsck after the run are checked as well",
             "rule": CONC_RULE + "the history incl. post-operation attributes, listings and the final read-back must be linearizable (porcupine, 20 s time-out, inconclusive counted separately). distinct = distinct execution fingerprint; non-trivial = at least 4 RPCs and more than 10 scheduling choices",
             "state_measure": "distinct recorded histories (hash of all requests and replies in order)",
             "real": REAL, "stubs": STUBS, "assumptions": COMMON_ASSUME + ["READDIRPLUS per-entry attributes are compared per entry, not as one snapshot (see DESIGN.md C03)"]},
-    "C06": {"level": "exploration", "budget": {"quick": 60, "thorough": 900},
+    "C06": {"level": "exploration", "budget": {"quick": 90, "thorough": 900},
             "level_text": "seeded search over conflict-rich concurrent workloads (children with smaller and larger inode numbers than their parents, cold caches after a restart, renames in all directions, listings of parent and child) with, in half of the runs, directed preemption that holds one client at its n-th inode-lock acquisition until every other task is blocked or done; a deadlock is reported only when the simulator actually reaches a state with no runnable task (with the wait-for cycle), a livelock when a run exceeds its step budget even under a fair scheduler",
             "rule": CONC_RULE + "with cold caches and directed preemption (task, n-th lock acquisition); the run must finish: no state without a runnable task, step budget respected (second chance under round-robin). distinct = distinct execution fingerprint; non-trivial = at least 4 RPCs and more than 10 scheduling choices",
             "state_measure": "distinct recorded histories",
